@@ -1,5 +1,6 @@
 import Mdns.Lemmas.Delay
 import Mdns.Lemmas.ClientSchedule
+import Mdns.Lemmas.ClientHostSchedule
 import Mdns.Props.C03
 /-
   C19  Repeated queries back off 1 s, 2 s, 4 s ... capped at one hour - the arithmetic.
@@ -226,6 +227,157 @@ theorem browse_schedule_chain (ty : BList) (ch : Nat) : ∀ (h : List (Nat × Li
         (fun it hit => hc it (List.mem_cons_of_mem _ hit))
       exact ⟨n, t', by simpa [run] using hn, ht⟩
 
+
+/-! ### the chain of gaps of a hostname search, up to its deadline -/
+
+/-- **The schedule of a hostname search starts.**  An iteration at `now` that processes
+    `resolve_hostname(host, timeout)` on `ch` (after any commands `pre`; the commands after it
+    neither search nor stop the name, in whatever letter case): the query of the call is number 0,
+    at `now`.  With no time-out, or one of more than a second, exactly one retransmission of the
+    name is queued at the end of the iteration, due 1 s later and carrying the delay 2 s, and the
+    search is open under the lower-cased name with the deadline `now + timeout` (`HostSched`).
+    With a time-out of at most a second no retransmission is queued at all (`HostEnded`): the
+    first one would not come before the deadline. -/
+theorem resolve_schedule_starts (s : State) (now : Nat) (pkts : List Packet) (pre : List Command) (host : BList) (ch : Nat)
+    (timeout : Option Nat) (post : List Command) (h1 : OneEachC s.reruns)
+    (hc : post.all (fun c => !touchesHost (lower host) c) = true) :
+    ((∀ t, timeout = some t → 1000 < t) →
+      HostSched host ch (timeout.map (now + ·)) now 0 (iter s now pkts (pre ++ .resolveHost host ch timeout :: post)).1) ∧
+    ((∃ t, timeout = some t ∧ t ≤ 1000) →
+      HostEnded host (iter s now pkts (pre ++ .resolveHost host ch timeout :: post)).1) := by
+  rw [(iter_split s now pkts pre (.resolveHost host ch timeout) post).1]
+  apply hostSched_starts host ch timeout _ now post _ hc
+  apply oneEach_runCommands
+  exact OneEachC.af (s' := (ingress s now pkts).1) h1 (af_ingress now pkts s)
+
+/-- **One step of the schedule of a hostname search** (`Client.hostSched_iter`).  While the name
+    is neither searched again nor stopped, an iteration before the due time changes nothing.  The
+    first iteration at or after the due time: (1) if the next instant `now + delay (k+1)` s still
+    lies before the deadline (or there is none), it sends `[(host, A), (host, AAAA)]` and queues
+    the next retransmission `delay (k + 1)` seconds later with the next delay of the sequence
+    1, 2, 4, ..., 2048, 3600, 3600, ...; (2) if the deadline has not been reached but the next
+    instant would not come before it, it sends the query and the schedule is over; (3) if the
+    deadline has been reached the search has timed out and the schedule is over. -/
+theorem resolve_schedule_step (host : BList) (ch : Nat) (dl : Option Nat) (t k : Nat) (s : State) (now : Nat)
+    (pkts : List Packet) (cmds : List Command) (h1 : OneEachC s.reruns) (hs : HostSched host ch dl t k s)
+    (hc : cmds.all (fun c => !touchesHost (lower host) c) = true) :
+    (now < t + Delay.delay k * 1000 → HostSched host ch dl t k (iter s now pkts cmds).1) ∧
+    (t + Delay.delay k * 1000 ≤ now →
+      ((∀ d, dl = some d → now + Delay.delay (k + 1) * 1000 < d) →
+        HostSched host ch dl now (k + 1) (iter s now pkts cmds).1 ∧
+        ∃ known, Out.query [(host, 1), (host, 28)] known ∈ (iter s now pkts cmds).2) ∧
+      (∀ d, dl = some d → now < d → d ≤ now + Delay.delay (k + 1) * 1000 →
+        HostEnded host (iter s now pkts cmds).1 ∧
+        ∃ known, Out.query [(host, 1), (host, 28)] known ∈ (iter s now pkts cmds).2) ∧
+      (∀ d, dl = some d → d ≤ now → HostEnded host (iter s now pkts cmds).1)) :=
+  hostSched_iter host ch dl t k s now pkts cmds h1 hs hc
+
+/-- a schedule that is over stays over while the name is not searched again -/
+theorem resolve_schedule_stays_over (host : BList) : ∀ (h : List (Nat × List Packet × List Command)) (s : State),
+    HostEnded host s → (∀ it ∈ h, it.2.2.all (fun c => !touchesHost (lower host) c) = true) → HostEnded host (run s h).1
+  | [], _, hs, _ => hs
+  | (now, pkts, cmds) :: rest, s, hs, hc => by
+    simp only [run]
+    exact resolve_schedule_stays_over host rest _ (hostEnded_iter host s now pkts cmds hs (hc _ List.mem_cons_self))
+      (fun it hit => hc it (List.mem_cons_of_mem _ hit))
+
+/-- **The chain of gaps of a hostname search, up to its deadline.**  From a state in which the
+    query number `k` of the search for `host` went out at `t` (`HostSched`: its retransmission
+    queued for `t + delay k` s, before the deadline `dl`, the search open), run ANY history whose
+    commands neither search nor stop the name (iterations at any times, arbitrarily late, any
+    packets, any other searches).  Afterwards there are `n` and `t'` - the schedule got as far as
+    query number `k + n`, sent at `t'`, with `t' ≥ t + 1000 * (delay k + ... + delay (k+n-1))`:
+    every gap is at least the delay of the sequence 1 s, 2 s, 4 s, ..., 3600 s - such that
+    * either the schedule is still running at that number (and the search open), or
+    * the schedule is over, and then ONLY because of the deadline `d`: the next query after number
+      `k + n` would not have come before it (`d ≤ t' + delay (k+n)` s: the cut of
+      `exec_command_resolve_hostname`), or some iteration of the history came at or after the
+      deadline (the search timed out). -/
+theorem resolve_schedule_chain (host : BList) (ch : Nat) (dl : Option Nat) :
+    ∀ (h : List (Nat × List Packet × List Command)) (s : State) (t k : Nat),
+    OneEachC s.reruns → HostSched host ch dl t k s →
+    (∀ it ∈ h, it.2.2.all (fun c => !touchesHost (lower host) c) = true) →
+    ∃ n t', t + 1000 * delaySum k n ≤ t' ∧
+      (HostSched host ch dl t' (k + n) (run s h).1 ∨
+       (HostEnded host (run s h).1 ∧
+        ∃ d, dl = some d ∧ (d ≤ t' + Delay.delay (k + n) * 1000 ∨ ∃ it ∈ h, d ≤ it.1)))
+  | [], s, t, k, _, hs, _ => ⟨0, t, by simp [delaySum], Or.inl (by simpa [run] using hs)⟩
+  | (now, pkts, cmds) :: rest, s, t, k, h1, hs, hc => by
+    have hstep := hostSched_iter host ch dl t k s now pkts cmds h1 hs (hc _ List.mem_cons_self)
+    have h1' := oneEach_iter s now pkts cmds h1
+    have hc' : ∀ it ∈ rest, it.2.2.all (fun c => !touchesHost (lower host) c) = true :=
+      fun it hit => hc it (List.mem_cons_of_mem _ hit)
+    by_cases hdue : t + Delay.delay k * 1000 ≤ now
+    · obtain ⟨hgo, hcut, hout⟩ := hstep.2 hdue
+      by_cases hwithin : ∀ d, dl = some d → now + Delay.delay (k + 1) * 1000 < d
+      · -- the query goes out, the next one is queued
+        obtain ⟨n, t', ht, hres⟩ := resolve_schedule_chain host ch dl rest _ now (k + 1) h1' (hgo hwithin).1 hc'
+        refine ⟨n + 1, t', ?_, ?_⟩
+        · simp only [delaySum]
+          omega
+        · have e : k + (n + 1) = k + 1 + n := by omega
+          simp only [run]
+          rw [e]
+          rcases hres with hres | ⟨hend, d, hd, hor⟩
+          · exact Or.inl hres
+          · refine Or.inr ⟨hend, d, hd, ?_⟩
+            rcases hor with hor | ⟨it, hit, hle⟩
+            · exact Or.inl hor
+            · exact Or.inr ⟨it, List.mem_cons_of_mem _ hit, hle⟩
+      · -- there is a deadline `d` with `d ≤ now + delay (k+1)`
+        have hex : ∃ d, dl = some d ∧ d ≤ now + Delay.delay (k + 1) * 1000 := by
+          cases dl with
+          | none => exact absurd (fun d hd => by cases hd) hwithin
+          | some d =>
+            refine ⟨d, rfl, ?_⟩
+            apply Nat.le_of_not_lt
+            intro hlt
+            apply hwithin
+            intro d' hd'
+            cases hd'
+            exact hlt
+        obtain ⟨d, hd, hle⟩ := hex
+        by_cases hreached : d ≤ now
+        · -- timed out
+          refine ⟨0, t, by simp [delaySum], Or.inr ⟨?_, d, hd, Or.inr ⟨(now, pkts, cmds), List.mem_cons_self, hreached⟩⟩⟩
+          simp only [run]
+          exact resolve_schedule_stays_over host rest _ (hout d hd hreached) hc'
+        · -- the last query goes out, the next one would not come before the deadline
+          refine ⟨1, now, by simp [delaySum]; omega, Or.inr ⟨?_, d, hd, Or.inl hle⟩⟩
+          simp only [run]
+          exact resolve_schedule_stays_over host rest _ (hcut d hd (by omega) hle).1 hc'
+    · obtain ⟨n, t', ht, hres⟩ := resolve_schedule_chain host ch dl rest _ t k h1' (hstep.1 (by omega)) hc'
+      refine ⟨n, t', ht, ?_⟩
+      simp only [run]
+      rcases hres with hres | ⟨hend, d, hd, hor⟩
+      · exact Or.inl hres
+      · refine Or.inr ⟨hend, d, hd, ?_⟩
+        rcases hor with hor | ⟨it, hit, hle⟩
+        · exact Or.inl hor
+        · exact Or.inr ⟨it, List.mem_cons_of_mem _ hit, hle⟩
+
+/-- **From the call.**  `resolve_hostname(host, timeout)` with no time-out or one of more than a
+    second, processed at `now` in ANY state with one schedule per search (every state reachable
+    from the fresh daemon: `one_schedule_client`), followed by ANY history that neither searches
+    nor stops the name: the schedule got as far as some query number `n`, sent at
+    `t' ≥ now + 1000 * (delay 0 + ... + delay (n-1))`, and it is either still running there or over
+    because of the deadline `now + timeout` only. -/
+theorem resolve_schedule_from_call (s : State) (now : Nat) (pkts : List Packet) (pre : List Command) (host : BList) (ch : Nat)
+    (timeout : Option Nat) (post : List Command) (h : List (Nat × List Packet × List Command)) (h1 : OneEachC s.reruns)
+    (hlong : ∀ t, timeout = some t → 1000 < t)
+    (hc : post.all (fun c => !touchesHost (lower host) c) = true)
+    (hh : ∀ it ∈ h, it.2.2.all (fun c => !touchesHost (lower host) c) = true) :
+    ∃ n t', now + 1000 * delaySum 0 n ≤ t' ∧
+      (HostSched host ch (timeout.map (now + ·)) t' n
+          (run (iter s now pkts (pre ++ .resolveHost host ch timeout :: post)).1 h).1 ∨
+       (HostEnded host (run (iter s now pkts (pre ++ .resolveHost host ch timeout :: post)).1 h).1 ∧
+        ∃ d, timeout.map (now + ·) = some d ∧ (d ≤ t' + Delay.delay n * 1000 ∨ ∃ it ∈ h, d ≤ it.1))) := by
+  have hstart := (resolve_schedule_starts s now pkts pre host ch timeout post h1 hc).1 hlong
+  have hone := oneEach_iter s now pkts (pre ++ .resolveHost host ch timeout :: post) h1
+  obtain ⟨n, t', ht, hres⟩ := resolve_schedule_chain host ch (timeout.map (now + ·)) h _ now 0 hone hstart hh
+  refine ⟨n, t', ht, ?_⟩
+  simpa using hres
+
 /-! non-vacuity: an unanswered browse, iterations at the requested wake-ups: the PTR queries of the
     schedule go out at 1000, 2000, 4000, 8000, 16000 (gaps 1, 2, 4, 8 s) -/
 example :
@@ -237,6 +389,27 @@ example :
           | _ => none : Option Nat)) = [1000, 2000, 4000, 8000, 16000] := by decide
 
 example : delaySum 0 13 = 1 + 2 + 4 + 8 + 16 + 32 + 64 + 128 + 256 + 512 + 1024 + 2048 + 3600 := by decide
+
+/-- an example host name: `h.local.` -/
+def hostX : BList := [0x68, 0x2e, 0x6c, 0x6f, 0x63, 0x61, 0x6c, 0x2e]
+
+/-! non-vacuity: an unanswered hostname search with a time-out of 6 s started at 1000 (deadline
+    7000), iterations at the requested wake-ups: the address queries go out at 1000, 2000, 4000;
+    the next one (8000) would not come before the deadline, so the schedule ends there; at 7000 the
+    search times out -/
+example :
+    ((run (init 1000 [C03.eth0])
+        [(1000, [], [.resolveHost hostX 7 (some 6000)]), (2000, [], []), (4000, [], []), (7000, [], []), (8000, [], [])]).2.filterMap
+        fun o => (match o.2 with
+          | .query [(n, 1), (_, 28)] _ => if n == hostX then some o.1 else none
+          | _ => none : Option Nat)) = [1000, 2000, 4000] := by decide
+
+example : HostSched hostX 7 (some 7000) 1000 0 (iter (init 1000 [C03.eth0]) 1000 [] [.resolveHost hostX 7 (some 6000)]).1 :=
+  ⟨by decide, by decide, fun d hd => by cases hd; decide⟩
+
+example : HostEnded hostX (run (init 1000 [C03.eth0])
+    [(1000, [], [.resolveHost hostX 7 (some 6000)]), (2000, [], []), (4000, [], [])]).1 := by
+  unfold HostEnded; decide
 
 end ClientModel
 
